@@ -12,8 +12,10 @@ Output, sections separated by ` # `:
   D <module or ->                         first duplicate module id (load_graph)
   R <root>;…                              mypy_path + python_path derived from the sources
   F <module>=><path or -><:d if a directory>;…      find_module(source.module) per source
+  H gr=<0|1>,re=<0|1>,dup=<0|1>           goodRoots, rootsExplicit, hasDuplicate (global side conditions / first disjunct)
+  C <path>|f=,i=,s=,n=,b=,l=,ok=,rt=;…    per source: isFile, importable, spells, noInnerBase, noBareDir, foundListed,
+                                          cellOK (their conjunction) and roundTrips (the conclusion)
   P <path>|<module>;…                     find_modules_recursive(pkg) with roots mypy_path + [cwd]   (only when pkg given)
-  H <pred>=<0|1>,…                         the exclusion predicates of the `_partial` theorems
 -/
 open Layout
 
@@ -67,7 +69,18 @@ def step (line : String) : String :=
       "S " ++ ";".intercalate (srcs.map showSrc) ++
       " # D " ++ (match firstDuplicate srcs [] with | some m => showMod m | none => "-") ++
       " # R " ++ ";".intercalate ((searchRoots o srcs).map showPath) ++
-      " # F " ++ ";".intercalate (srcs.map fun s => showMod s.srcModule ++ "=>" ++ showFound fs (findSrc fs o srcs s))
+      " # F " ++ ";".intercalate (srcs.map fun s => showMod s.srcModule ++ "=>" ++ showFound fs (findSrc fs o srcs s)) ++
+      " # H gr=" ++ b2s (goodRoots fs o) ++ ",re=" ++ b2s (rootsExplicit o (searchRoots o srcs)) ++
+        ",dup=" ++ b2s (hasDuplicate srcs) ++
+      " # C " ++ ";".intercalate (srcs.map fun s =>
+        let roots := searchRoots o srcs
+        let B := s.base.getD []
+        showPath s.path ++ "|" ++
+          "f=" ++ b2s (fs.isFile s.path) ++ ",i=" ++ b2s (importable s.module) ++
+          ",s=" ++ b2s (s.base.isSome && spells B s.module s.path) ++
+          ",n=" ++ b2s (noInnerBase o roots s.module) ++ ",b=" ++ b2s (noBareDir fs o roots B s.module) ++
+          ",l=" ++ b2s (foundListed fs o srcs s) ++ ",ok=" ++ b2s (cellOK fs o srcs s) ++
+          ",rt=" ++ b2s (roundTrips fs o srcs s))
   main ++ pkgOut
 
 partial def loop (h : IO.FS.Stream) : IO Unit := do
